@@ -580,14 +580,20 @@ class ExprMixin:
         if self.is_dict(base, st):
             present, val = self.dict_get(base, idx, st)
             self.safety(st, "dict:key-present", present, node, "KeyError: key not in dict")
+            if val is None and self.spec_depth:
+                return [(st, fresh(VAL, "absent_key"))]      # only meaningful under a guard that makes the key present
             if val is None:
                 raise PathEnd("keyerror")
             return [(st, val)]
         b = self.deref(base, st)
         if isinstance(b, VOpt):
             b = self.unopt(b, st, node, "subscripted value")
+            if self.is_dict(b, st):
+                return self.getitem(b, idx, st, node)
         if isinstance(b, VNone) and self.spec_depth:
             return [(st, fresh(INT, "subscript_of_none"))]      # only meaningful under a guard that excludes None
+        if isinstance(b, VVal) and isinstance(self.deref(idx, st), VStr) and self.spec_depth:
+            return [(st, fresh(VAL, "absent_key"))]
         if isinstance(b, VVal):
             from .absobj import Comp
             return [(st, VVal(Comp(b.t, to_int(self.deref(idx, st)))))]
